@@ -75,6 +75,30 @@ Proof.
 Qed.
 Print Assumptions c16_ts_record.
 
+(* Server shutdown (Group.Dispose): every sub session is disposed holding
+   exactly what it had received (all move to the detached set, nothing is sent),
+   and the input - if there is one - is finalised as by delIn: recordings closed
+   with their content, the hook told to stop, caches, codec information, SDP and
+   PAT/PMT wiped.  Exactly once here too: after an input that had already ended,
+   or a second Dispose, the hook is not told again. *)
+Theorem c16_finalises_dispose : forall cf s,
+  let s' := step cf s EvDispose in
+  g_in s' = false /\ g_subs s' = [] /\ g_gone s' = g_gone s ++ g_subs s /\
+  g_rec_open s' = false /\ g_rec s' = g_rec s /\ g_trec s' = g_trec s /\
+  g_hook s' = (if g_in s && cf_hook cf then hook_stop (g_hook s) else g_hook s) /\
+  g_video_known s' = false /\ g_patpmt s' = None /\ g_sdp s' = None /\
+  prologue (g_rtmp_cache s') false = [] /\ prologue (g_rtmp_cache s') true = [] /\
+  prologue (g_flv_cache s') false = [] /\ gc_all (g_ts_cache s') = [].
+Proof. exact dispose_finalises. Qed.
+Print Assumptions c16_finalises_dispose.
+
+Theorem c16_dispose_once : forall cf s,
+  g_hook (step cf (step cf s EvInStop) EvDispose) = g_hook (step cf s EvInStop) /\
+  g_hook (step cf (step cf s EvDispose) EvDispose) = g_hook (step cf s EvDispose) /\
+  g_hook (step cf (step cf s EvDispose) EvInStop) = g_hook (step cf s EvDispose).
+Proof. exact dispose_after_stop. Qed.
+Print Assumptions c16_dispose_once.
+
 (* Idle check (Group.disposeInactiveSessions + BasicSessionStat.isAlive): at a
    sweep (every 120th tick) a publisher whose connection read nothing since the
    previous sweep is disposed, one that read something is kept; subscribers
@@ -127,6 +151,13 @@ Example c16_ts_record_nonvacuous :
   let h := [EvTs true; EvInStart; EvPatPmt; EvTs true; EvTs false; EvInStop; EvTs true; EvPatPmt; EvInStart; EvPatPmt; EvTs true] in
   g_trec (run c16_cfg h) = [[LPat 2; LTs 4]; [LPat 0; LTs 1; LTs 2]].
 Proof. vm_compute. reflexivity. Qed.
+
+Example c16_dispose_nonvacuous :
+  let h := [EvInStart; EvJoin KFlv 1; EvJoin KRtmp 2; EvJoin KPush 7; EvPublish (c16_v 23 0 1); EvPublish (c16_v 23 1 2); EvPatPmt; EvDispose] in
+  let s := run c16_cfg h in
+  g_subs s = [] /\ length (g_gone s) = 3%nat /\ g_hook s = [([0%nat; 1%nat], 1%nat)] /\ g_rec s = [[LT 0; LT 1]] /\ g_trec s = [[LPat 0]] /\
+  option_map c_out (find (fun c => c_id c =? 1) (g_gone s)) = Some [LT 0; LT 1].
+Proof. vm_compute. repeat split; reflexivity. Qed.
 
 Example c16_nonvacuous :
   let h1 := [EvInStart; EvJoin KPush 7; EvPublish (c16_v 23 0 1); EvPublish (c16_v 23 1 2)] in
